@@ -503,6 +503,54 @@ fn main() {
         println!("replay: property {} held on this case", prop.name());
         std::process::exit(0);
     }
+    if args[2] == "--replay-dir" {
+        // run every *.case file of a directory in this one process (Miri sample, regression sweeps)
+        let dir = PathBuf::from(args.get(3).expect("dir"));
+        let max_fault: i64 = args.get(4).and_then(|s| s.parse().ok()).unwrap_or(60);
+        let mut files: Vec<PathBuf> = std::fs::read_dir(&dir).expect("dir").filter_map(|e| e.ok().map(|e| e.path())).filter(|p| p.extension().map(|e| e == "case").unwrap_or(false)).collect();
+        files.sort();
+        let mut n = 0u64;
+        for f in files {
+            let Ok(t) = std::fs::read_to_string(&f) else { continue };
+            let Ok(mut case) = Case::from_text(&t) else { continue };
+            case.prop = prop;
+            println!("case: {}", f.display());
+            let cx = exec(&case, prop, false);
+            n += 1;
+            let mut viol = cx.viol.clone();
+            if viol.is_none() && prop == Prop::C04 && case.fuse < 0 {
+                let t = (tl::fuse_ticks() as i64).min(max_fault);
+                for p in 0..t {
+                    case.fuse = p as i32;
+                    let cx = exec(&case, prop, false);
+                    n += 1;
+                    if cx.viol.is_some() {
+                        viol = cx.viol;
+                        break;
+                    }
+                }
+            }
+            if let Some(v) = viol {
+                let rp = write_replay(prop, &case, &v);
+                println!("violated: {v}");
+                println!("VIOLATION property={} replay={}", prop.name(), rp.display());
+                std::process::exit(1);
+            }
+        }
+        println!("replay-dir: {n} executions, property {} held", prop.name());
+        std::process::exit(0);
+    }
+    if args[2] == "--decode" {
+        // fuzz artifact bytes -> case file: runner Cxx --decode <engine> <artifact> <out.case>
+        let engine = Engine::parse(args.get(3).expect("engine")).expect("engine name");
+        let data = std::fs::read(args.get(4).expect("artifact")).expect("read artifact");
+        let mut case = Case::from_bytes(engine, prop, &data);
+        case.kind %= 3;
+        case.ops.truncate(96);
+        case.univ = (case.univ % 21).max(1);
+        std::fs::write(args.get(5).expect("out"), case.to_text(&["decoded from a libFuzzer artifact".into()])).expect("write");
+        std::process::exit(0);
+    }
     if args[2] == "--dump" {
         // dump N generated cases (for Miri / fuzz seed corpora): runner Cxx --dump <dir> <count>
         let dir = PathBuf::from(args.get(3).expect("dir"));
